@@ -152,7 +152,7 @@ def gen_job(rng):
         # deeply (but comfortably below the interpreter's own limit: ~326 levels) nested selector lists: whatever the
         # library decides about nesting depth, it has to decide the same in every configuration
         d = rng.randrange(200, 262, 2)
-        probe = {'markup': '<div><p id="a">x</p><p id="b">y</p></div>', 'selector': ':is(' * d + 'p' + ')' * d}
+        probe = {'markup': '<div><p id="a">x</p><p id="b">y</p></div>', 'selector': ':is(' * d + 'p' + ')' * d, 'deep': True}
         parser = 'html.parser'
     elif r0 < 0.10:
         probe = {'markup': rng.choice(PROBE_STRINGS), 'selector': rng.choice(STRING_SELECTORS)}
@@ -250,6 +250,11 @@ def judge(job, res, rc, stderr):
     pr = res['probe'] or {}
     if 'fatal' in pr:
         return {'oracle': 'b-agree', 'detail': 'probe could not import/parse', 'error': pr['fatal']}
+    if job['probe'].get('deep') and any(isinstance(v, dict) and v.get('exc') == 'RecursionError' for v in pr.values()):
+        # the interpreter's own stack limit was reached: how many frames a nesting level costs is the implementation's
+        # business (and the limit itself is configuration), so such a run has no answer to compare - with anything
+        pr = {'n_elements': pr.get('n_elements'), 'stack_limit_reached': True}
+        res['probe'] = pr
     if job['probe'].get('invalid'):
         # a malformed selector: every entry point must raise, and the same exception type
         kinds = {k: (v.get('exc') if isinstance(v, dict) else 'returned') for k, v in pr.items()
@@ -368,7 +373,9 @@ def run_chunk(task, agg):
             first = (res.get('init_order') or ['?'])[0]
             agg.count('first_initialised:' + first)
             agg.count('parser:' + job['probe']['parser'])
-            if not v:
+            if res['probe'] and res['probe'].get('stack_limit_reached'):
+                agg.count('probe_excluded:interpreter_stack_limit_reached')
+            elif not v:
                 # oracle c: same probe + same parser => same answers whichever program preceded it
                 pk, ph = probe_key(job), fp.h(res['probe'])
                 if ph not in agg.sets.get('probe:' + pk, ()):
@@ -392,6 +399,8 @@ def run_chunk(task, agg):
                     if v2:
                         agg.violations.append(make_record(job2, v2, res2, seed, cfg, i))
                         break
+                    if res2['probe'] and res2['probe'].get('stack_limit_reached'):
+                        continue
                     pk, ph = probe_key(job2), fp.h(res2['probe'])
                     if ph not in agg.sets.get('probe:' + pk, ()):
                         agg.extra.append(['probe', pk, ph, job2, res2['probe']])
